@@ -188,7 +188,7 @@ def run(ctx):
     ctx.cov['traces_validated_against_impl'] = ctx.cov['evaluations']
     ctx.sample({'example certificate': 'LogRule(n=1, method=central, order=4).rule(2.0) vs row 0 of the exact inverse of [[1/1!, 1/3!],[1/2, 1/(8*3!)]]'})
     if ctx.broken or ctx.thorough:
-        search(ctx, ctx.n(6, 10), [2.0, 1.6, 4.0] if not ctx.thorough else ratios_q[:8], tables)
+        search(ctx, 10 if (ctx.broken or ctx.thorough) else 6, [2.0, 1.6, 4.0] if not ctx.thorough else ratios_q[:8], tables)
     ctx.assumptions += ['the rule row is an oracle (LAPACK pinv): certified each run against the EXACT inverse of the model\'s moment matrix with the exact condition number; configurations with kappa > 1e13 are numerically singular (excluded by the property) and only counted',
                         'layers (A), (B), (C) are each proved; their composition (instantiating the abstract sigma/off/st/T of (C) with the table values of (B) and the signatures of (A)) is by inspection of matching statements, not yet a single Coq term',
                         'the rounding clause ("up to conditioning-scaled rounding") is the certificate bound 8*u*kappa, not a floating-point proof']
